@@ -107,7 +107,7 @@ func (p *signalPool) GetDBConn() (*sql.DB, error) { return p.DB, nil }
 // through the same handle: B publishes the in-progress cache entry of the text and waits for a
 // connection (PreparedStmtDB.prepare -> sql.DB.PrepareContext); A then runs the same query on its
 // tx handle, finds B's entry and waits for B's preparation (<-stmt.prepared): neither returns.
-// Alone, each call returns at once. The test gives them 10 s and then cancels B's context to end
+// Alone, each call returns at once. The test gives them 5 s and then cancels B's context to end
 // both goroutines.
 func TestC07WitnessPrepareStmtBoundedPool(t *testing.T) {
 	mem := openMem(1, 2)
@@ -152,10 +152,10 @@ func TestC07WitnessPrepareStmtBoundedPool(t *testing.T) {
 		if err := <-bDone; err != nil {
 			t.Errorf("C07 violated: the query outside the block returned %v", err)
 		}
-	case <-time.After(10 * time.Second):
+	case <-time.After(5 * time.Second):
 		cancel() // B's wait for a connection ends, B closes its entry, A continues
 		eb, ea := <-bDone, <-aDone
-		t.Fatalf("C07 violated: deadlock - with PrepareStmt and SetMaxOpenConns(1) neither the Find inside db.Transaction nor the same Find outside it returned within 10s (after cancelling the outer call's context: outer=%v, block=%v)", eb, ea)
+		t.Fatalf("C07 violated: deadlock - with PrepareStmt and SetMaxOpenConns(1) neither the Find inside db.Transaction nor the same Find outside it returned within 5s (after cancelling the outer call's context: outer=%v, block=%v)", eb, ea)
 	}
 }
 
